@@ -2,7 +2,8 @@
 
    KScript: the harness drives a real minibus.Bus one controller action at a time.  Sender
    goroutines, the goroutine calling Listen and the watcher goroutines park at the verif yield
-   points of bus.go (bus.send.listener, bus.send.collect, bus.listen.register, bus.stop.lock);
+   points of bus.go (bus.send.listener, bus.listener.send.locked, bus.send.collect,
+   bus.listen.register, bus.stop.lock);
    after every action the harness waits until no goroutine of the library or of the harness is
    runnable and records what it can see (where each thread is, what each consumer received).
    The judge replays the same actions on the model: after an action every goroutine that is not
@@ -34,6 +35,7 @@ Definition park_after (p : spc) : bool :=
   match p with
   | SLoop (_ :: _) _ _ => true      (* gate bus.send.listener *)
   | SLoop [] true _ => true         (* gate bus.send.collect *)
+  | SSel _ _ _ _ _ => true          (* gate bus.listener.send.locked: holds the read lock, before the select *)
   | _ => false
   end.
 
@@ -89,7 +91,7 @@ Definition obs_sender (X : sender) (parked : bool) : list Z :=
     | SIdle => 0
     | SLoop (_ :: _) _ _ => if parked then 1 else 3
     | SLoop [] _ _ => if parked then 2 else 3
-    | SSel _ _ _ _ _ => 3
+    | SSel _ _ _ _ _ => if parked then 4 else 3
     end;
     zn (List.length (s_rets X));
     match s_rets X with [] => 2 | b :: _ => zb b end ].
